@@ -488,6 +488,22 @@ func (it *Interp) step(i int, op *Op) {
 			}
 		})
 
+	case "send2":
+		d := it.denom(op.D)
+		a, f := bigOf(op.A), bigOf(op.F)
+		m1 := mtypes.NewMsgSendToExternal(mtypes.ChainID(chain), sim.UserAddr(op.U%3), sim.ExtUser(op.R%4).Hex(), sdk.NewCoin(d, sdkInt(a)), sdk.NewCoin(d, sdkInt(f)))
+		m2 := mtypes.NewMsgSendToExternal(mtypes.ChainID(chain), sim.UserAddr(op.U%3), sim.ExtUser((op.R+1)%4).Hex(), sdk.NewCoin(d, sdkInt(new(big.Int).Add(a, big.NewInt(1)))), sdk.NewCoin(d, sdkInt(f)))
+		pre := it.preSnap()
+		rs := it.H.DeliverTx([]sdk.Msg{m1, m2})
+		post := it.Snap()
+		it.cur = post
+		it.learn(post)
+		if rs[0].Err == nil {
+			it.Stats["send2-ok"]++
+			it.TxHashes = append(it.TxHashes, rs[0].TxHash)
+		}
+		it.notify(&StepInfo{Idx: i, Op: op, Phase: "op", Pre: pre, Post: post, Res: &rs[len(rs)-1], Note: "two sends in one tx"})
+
 	case "burst":
 		d := it.denom(op.D)
 		for k := 0; k < op.N && !it.Failed(); k++ {
